@@ -434,8 +434,9 @@ def real_analysis(shape):
         params.append(f"{ident(nm)}: {'type[int]' if cx else 'int'}")
     if shape["kwonly"]:
         params.append("*")
-        for (nm, cx) in shape["kwonly"]:
-            params.append(f"{ident(nm)}: {'type[int]' if cx else 'int'} = 0")
+        for kwp in shape["kwonly"]:
+            nm, cx = kwp[0], kwp[1]
+            params.append(f"{ident(nm)}: {'type[int]' if cx else 'int'}" + ("" if len(kwp) > 2 and kwp[2] else " = 0"))
     if shape["method"]:
         src = "class K(OvldBase):\n    @ovld\n    def m(self, " + ", ".join(params) + "):\n        return 0\n"
         glb = {"OvldBase": ovld.OvldBase, "ovld": ovld.ovld}
